@@ -467,6 +467,36 @@ func runC19(c *eng.Ctx) {
 		c.Check(eng.DominatedBy(f, run.Instr, d, nil), "defer<run", run.Instr, f, "the recover block is installed before the root stage runs", "")
 	})
 
+	// ---- 8b. nothing between an operator and the two designated handlers swallows a panic or an error ----------------------------
+	c.Rule("OWNER", "query{recover() only in the designated handlers}", func() {
+		allowed := map[string]bool{plT + ".Execute": true, poolT + ".execTask": true}
+		n := 0
+		for _, fn := range p.AllFuncs {
+			k := p.FuncKey(fn)
+			if !(strings.HasPrefix(k, "query.") || strings.HasPrefix(k, "query/") || strings.HasPrefix(k, "flow.") || strings.HasPrefix(k, "internal/concurrent.")) {
+				continue
+			}
+			for _, s := range p.Sites(fn, eng.CallTo("builtin:recover")) {
+				top := topFunc(c, fn)
+				n++
+				c.Check(allowed[top], "recover@"+top, s.Instr, fn, "on the query execution path a panic is recovered only by pipeline.Execute and by the worker pool's task wrapper (both turn it into the stage's / pipeline's error); a recover anywhere below would let a panicking operator look successful", "recover() in "+top)
+			}
+		}
+		c.Check(n == 2, "both-handlers-present", nil, nil, "exactly the two designated recover sites exist", fmt.Sprintf("%d recover sites", n))
+		ex := c.Fn("query/stage.planNode.ExecuteWithStats")
+		op := c.One(ex, invokeOn(".op", "Execute"), "p.op.Execute()")
+		for i, r := range eng.SuccessReturns(ex) {
+			ev := eng.RetVal(r, 1)
+			if eng.IsNilConst(ev) && !eng.DominatedBy(ex, r, []eng.Site{op}, nil) {
+				continue // no operator: nothing to run
+			}
+			c.Check(eng.DependsOn(ev, func(x ssa.Value) bool { return x == op.Instr.(ssa.Value) }), fmt.Sprintf("returns-the-operators-error[%d]", i), r, ex, "ExecuteWithStats returns the operator's own error", "returns "+p.Desc(ev))
+		}
+		for _, d := range deferredErrStores(ex) {
+			c.Check(false, "deferred-closure-does-not-touch-err", d.Store, ex, "the stats closure does not overwrite the operator's error", "assigns "+d.Var)
+		}
+	})
+
 	// ---- 9. leaf callback forwards the error ---------------------------------------------------------------
 	c.Rule("PROV", "query.leafTaskProcessor.processDataSearch{callback->SendResponse}", func() {
 		f := c.Fn("query.leafTaskProcessor.processDataSearch")
